@@ -401,6 +401,7 @@ func enumerate(r *eng.Rand, thorough bool, add func(group string, ps pset, varia
 		add("btp", pset{Name: "btpSame9", LogN: 9}, "btpLogN9-full1", nil)
 		addRace("btp", pset{Name: "raceBtp", LogN: 7}, "btpLogN8-full1", nil, 2, 4, 1)
 	}
+	enumerateRandom(r, thorough, add, addRace)
 	// ---- concurrent variants
 	if ps, ok := mk("raceRgsw", 6, "", []int{50, 40}, []int{50, 50}); ok {
 		addRace("rgsw", ps, "", nil, 4, 4, 2)
@@ -449,6 +450,181 @@ func enumerate(r *eng.Rand, thorough bool, add func(group string, ps pset, varia
 			addRace("rlwe-eval", ps, "", nil, 16, 16, 2)
 			addRace("rlwe-eval", ps, "", nil, 2, 2, 4)
 			addRace("rlwe-encdec", ps, "", nil, 8, 16, 2)
+		}
+	}
+}
+
+// enumerateRandom draws, per seed, parameter sets inside the domains the groups support: ring degree,
+// number and sizes of the Q and P primes, auxiliary modulus or power-of-two decomposition, ring
+// type, NTT or coefficient domain, secret distribution, plaintext modulus, default scale, parties.
+func enumerateRandom(r *eng.Rand, thorough bool, add func(group string, ps pset, variant string, po *pset), addRace func(group string, ps pset, variant string, po *pset, G, procs, reps int)) {
+	n := 5
+	maxLogN := 7
+	if thorough {
+		n, maxLogN = 40, 9
+	}
+	pick := func(xs ...int) int { return eng.Pick(r, xs...) }
+	bitsN := func(k int, xs ...int) []int {
+		o := make([]int, k)
+		for i := range o {
+			o[i] = pick(xs...)
+		}
+		return o
+	}
+	maxOf := func(v []int) int {
+		m := v[0]
+		for _, x := range v {
+			if x > m {
+				m = x
+			}
+		}
+		return m
+	}
+	pBits := func(qb []int, np int) []int {
+		o := make([]int, np)
+		for i := range o {
+			o[i] = maxOf(qb) + r.N(2)
+			if o[i] > 61 {
+				o[i] = 61
+			}
+		}
+		return o
+	}
+	for i := 0; i < n; i++ {
+		// ring layer: any sizes, any counts
+		{
+			logN := 3 + r.N(maxLogN-2)
+			ringT := eng.Pick(r, "", "", "ci")
+			qb := bitsN(1+r.N(5), 20, 30, 36, 45, 55, 58, 60, 61)
+			pb := bitsN(r.N(4), 30, 45, 55, 60, 61)
+			if logN >= 8 && len(qb) > 3 {
+				qb = qb[:3]
+			}
+			for j := range qb { // NTT-friendly primes of that size must exist
+				if qb[j] < logN+8 {
+					qb[j] = logN + 8
+				}
+			}
+			if ps, ok := mkPset(r, fmt.Sprintf("rnd%d-ring", i), logN, ringT, qb, pb); ok {
+				add("ring", ps, "", nil)
+				add("samplers", ps, "", nil)
+			}
+		}
+		// rlwe layer
+		{
+			logN := 4 + r.N(maxLogN-3)
+			ringT := eng.Pick(r, "", "", "", "ci")
+			qb := append([]int{pick(50, 55, 58, 60)}, bitsN(r.N(4), 45, 50, 55, 58, 60)...)
+			np := r.N(3)
+			pb := pBits(qb, np)
+			ps, ok := mkPset(r, fmt.Sprintf("rnd%d-rlwe", i), logN, ringT, qb, pb)
+			if ok {
+				switch np {
+				case 0:
+					ps.Pow2 = pick(8, 10, 12)
+				case 1:
+					ps.Pow2 = pick(0, 0, 12)
+				}
+				ps.NoNTT = r.N(4) == 0
+				ps.Xs = eng.Pick(r, "", "", "h", "gauss")
+				add("rlwe-encdec", ps, "", nil)
+				add("rlwe-eval", ps, "", nil)
+				add("rlwe-deep", ps, "", nil)
+				if i%2 == 0 && logN <= 7 {
+					ps.Name += "-race"
+					addRace("rlwe-eval", ps, "", nil, pick(2, 3, 4, 6), pick(2, 4, 16), 1)
+				}
+			}
+		}
+		// bgv
+		{
+			logN := 4 + r.N(maxLogN-3)
+			qb := append([]int{pick(45, 50, 55)}, bitsN(1+r.N(3), 40, 45, 50, 55)...)
+			np := r.N(3)
+			ps, ok := mkPset(r, fmt.Sprintf("rnd%d-bgv", i), logN, "", qb, pBits(qb, np))
+			if ok {
+				if np == 0 {
+					ps.Pow2 = 12
+				}
+				ps.T = eng.Pick(r, uint64(65537), 65537, 257, 97, 786433)
+				add("bgv", ps, "", nil)
+			}
+		}
+		// ckks
+		{
+			logN := 4 + r.N(maxLogN-3)
+			ls := pick(35, 40, 45)
+			qb := append([]int{ls + 15}, bitsN(1+r.N(4), ls)...)
+			np := r.N(3)
+			ps, ok := mkPset(r, fmt.Sprintf("rnd%d-ckks", i), logN, eng.Pick(r, "", "", "", "ci"), qb, pBits(qb, np))
+			if ok {
+				if np == 0 {
+					ps.Pow2 = 12
+				}
+				ps.LogScale = ls
+				add("ckks", ps, "", nil)
+				if i%2 == 1 && logN <= 7 {
+					ps.Name += "-race"
+					addRace("ckks", ps, "", nil, pick(2, 4, 5), pick(2, 4, 16), 1)
+				}
+			}
+		}
+		// rgsw
+		{
+			logN := 4 + r.N(3)
+			qb := bitsN(1+r.N(2), 50, 55)
+			np := r.N(3)
+			ps, ok := mkPset(r, fmt.Sprintf("rnd%d-rgsw", i), logN, "", qb, pBits(qb, np))
+			if ok {
+				if np < 2 {
+					ps.Pow2 = pick(8, 10, 12)
+				}
+				add("rgsw", ps, "", nil)
+			}
+		}
+		// multiparty key generation and key switching
+		{
+			logN := 4 + r.N(3)
+			qb := append([]int{pick(55, 58, 60)}, bitsN(1+r.N(2), 45, 50, 55)...)
+			np := 1 + r.N(2)
+			ps, ok := mkPset(r, fmt.Sprintf("rnd%d-mp", i), logN, "", qb, pBits(qb, np))
+			if ok {
+				ps.NoNTT = r.N(4) == 0
+				ps.Xs = eng.Pick(r, "", "h")
+				add("mp", ps, fmt.Sprintf("n%d", 1+r.N(5)), nil)
+			}
+		}
+		// mpbgv with another output chain every other time
+		{
+			logN := 4 + r.N(3)
+			qb := append([]int{pick(55, 58, 60)}, bitsN(1+r.N(3), 45, 50, 55)...)
+			ps, ok := mkPset(r, fmt.Sprintf("rnd%d-mpbgv", i), logN, "", qb, pBits(qb, r.N(2)))
+			if ok {
+				ps.T = eng.Pick(r, uint64(65537), 65537, 257, 97)
+				np := 1 + r.N(4)
+				if i%2 == 0 {
+					add("mpbgv", ps, fmt.Sprintf("n%d", np), nil)
+				} else {
+					// never longer than the input chain here: the longer case is the known defect, judged by its own case
+					k := 1 + r.N(len(qb))
+					ob := append([]int{pick(55, 58, 60)}, bitsN(k-1, 45, 50, 55)...)
+					if po, ok := mkPset(r, fmt.Sprintf("rnd%d-mpbgvOut", i), logN, "", ob, nil); ok {
+						po.T = ps.T
+						add("mpbgv", ps, fmt.Sprintf("n%d-out", np), &po)
+					}
+				}
+			}
+		}
+		// mpckks
+		{
+			logN := 4 + r.N(3)
+			ls := pick(35, 40)
+			qb := append([]int{55}, bitsN(4+r.N(2), 45, 50)...)
+			ps, ok := mkPset(r, fmt.Sprintf("rnd%d-mpckks", i), logN, eng.Pick(r, "", "", "ci"), qb, pBits(qb, r.N(2)))
+			if ok {
+				ps.LogScale = ls
+				add("mpckks", ps, fmt.Sprintf("n%d", 1+r.N(3)), nil)
+			}
 		}
 	}
 }
